@@ -274,10 +274,7 @@ def r4_remap_feeds_tables(ctx):
 
 
 def run(ctx):
-    r1_concrete_tags(ctx)
-    r2_tables_describe_whole_program(ctx)
-    r3_update_program_replaces(ctx)
-    r4_remap_feeds_tables(ctx)
+    ctx.run_rules([r1_concrete_tags, r2_tables_describe_whole_program, r3_update_program_replaces, r4_remap_feeds_tables])
     ctx.note("check_message_compatible's permissive default (unwrap_or(true)) applies only when a parameter table has no entry; recorded as an assumption")
     return (
         "Decides table-construction clauses: every runtime value kind has exactly its concrete tag; the table builder inserts each tag under "
